@@ -21,7 +21,7 @@ THEOREMS = [
     "Determinism.membership_only_invariant", "Determinism.sorted_after_invariant", "Determinism.sortedBy_after_invariant",
     "Determinism.singleton_only_invariant",
     "Determinism.pageUrl_invariant", "Determinism.rootSymlink_invariant", "Determinism.rootSymlink_no_indexError",
-    "Determinism.hasIndexPage_invariant", "Determinism.rootUnknown_invariant", "Determinism.popSingle_invariant",
+    "Determinism.rootSymlink_link_fresh", "Determinism.hasIndexPage_invariant", "Determinism.rootUnknown_invariant", "Determinism.popSingle_invariant",
     "Determinism.rootKinds_invariant",
     "Determinism.projectname_invariant", "Determinism.projectName_eq_old",
     "Determinism.projectname_counterexample_old", "Determinism.projectname_old_depends_on_enumeration",
@@ -33,10 +33,10 @@ THEOREMS = [
 PARTIAL = {
     "Determinism.rerun_idempotent":
         "hypothesis wfRun: the name that becomes the root symlink (<root>.html) is not written after the link is made, and "
-        "either not before it, or the link target (index.html) is rewritten afterwards and differs from it (covers a single "
-        "root module named like a summary page, whose summary page a re-run writes THROUGH the old link). Excluded: a "
-        "single root named `index` (the link points at itself, open() fails with ELOOP and the run aborts: a C01 matter; "
-        "concrete witness by `decide`). The hypothesis is evaluated on the operation log of every real build (stream oplog)",
+        "either not before it, or the link target (index.html) is rewritten afterwards and differs from it. Since /repo "
+        "5201211 the alias is skipped when <root>.html is index.html or the file of a summary / search page "
+        "(Determinism.rootSymlink_link_fresh), so no run of the current code falls outside the hypothesis through those "
+        "names; the hypothesis is still evaluated on the operation log of every real build (stream oplog)",
 }
 RULE = ("generated projects (1-3 roots: packages and plain modules; with / without --project-name; every docformat; "
         "docstrings with cross references; duplicates; private names; attrs / zope.interface / deprecate uses; stray "
@@ -61,7 +61,7 @@ ASSUMPTIONS = [
     "built-in extensions commute - catalogued as `assumed_commutative`, exercised by the oracle (the launcher reorders "
     "that listing too and the generated sources use attrs, zope.interface and deprecate)",
     "module and package names are identifiers (urllib.parse.quote is the identity on every name the url stream sends); "
-    "no generated root is called `index` (that run aborts with ELOOP, see notes); one fixed project has a root named like a summary page",
+    "fixed projects cover a single root called `index`, one named like a summary page, and one hidden by --privacy",
     "sorted(package_path.iterdir()) compares pathlib paths of one directory, i.e. their names as str (code point order)",
     "the output-directory model is flat: names are paths relative to the output directory, links point to names of the "
     "same directory, at most 40 links are followed (Linux); directories (mkdir(exist_ok=True)) are not entries",
@@ -585,7 +585,7 @@ def sidecar_streams(st: Streams, p: Dict[str, Any], src: Path, r: Dict[str, Any]
     st.add("get_system.projectname~projectName",
            "determinism projectname %s %s" % (enc(side["explicit"]) if side["explicit"] is not None else "-", ntoks(enum)),
            "ok " + enc(side["projectname"]), where)
-    st.add("summaryPages~hasIndexPage", "determinism indexpage " + ntoks(enum),
+    st.add("summaryPages~hasIndexPage", "determinism indexpage %d %s" % (1 if side["any_root_visible"] else 0, ntoks(enum)),
            "yes" if "IndexPage" in side["summary_pages"] else "no", where)
     for full, url in side["page_urls"].items():
         if safe(full):
@@ -600,7 +600,8 @@ def sidecar_streams(st: Streams, p: Dict[str, Any], src: Path, r: Dict[str, Any]
         impl = "link " + enc(links[0][0])
     else:
         impl = "other " + repr(links)
-    st.add("writeSummaryPages.symlink~rootSymlink", "determinism symlink " + ntoks(enum), impl, where)
+    st.add("writeSummaryPages.symlink~rootSymlink",
+           "determinism symlink %s %s" % (",".join(enc(f) for f in side["page_files"]) or "-", ntoks(enum)), impl, where)
     # traversal: one request per root that is a package with a name no other root shares
     listing: Dict[str, List[str]] = {}
     for d, names in side.get("listings", []):
@@ -703,6 +704,8 @@ def site_function_stream(ctx: Ctx, st: Streams) -> None:
         objs = []
         for nm in names:
             cls = system.Package if rng.random() < 0.5 else system.Module
+            if rng.random() < 0.3:
+                system.options.privacy = list(system.options.privacy) + [(model.PrivacyClass.HIDDEN, nm)]   # --privacy=HIDDEN:<root>
             o = cls(system, nm)
             system.addObject(o)
             objs.append(o)
@@ -714,8 +717,9 @@ def site_function_stream(ctx: Ctx, st: Streams) -> None:
         where = {"roots": names, "root_enum": enum}
         for o in objs:
             st.add("Documentable.url~pageUrl", "determinism pageurl %s %s" % (enc(o.fullName()), ntoks(enum)), "ok " + enc(o.url), where)
-        st.add("summaryPages~hasIndexPage", "determinism indexpage " + ntoks(enum),
-               "yes" if summary.IndexPage in summary.summaryPages(system) else "no", where)
+        vis = any(o.isVisible for o in system.rootobjects)
+        st.add("summaryPages~hasIndexPage", "determinism indexpage %d %s" % (1 if vis else 0, ntoks(enum)),
+               "yes" if summary.IndexPage in summary.summaryPages(system) else "no", dict(where, any_root_visible=vis))
         ctx.count("site-fn:roots=%d" % k)
     # astutils._annotation_for_elements
     pool = [1, 2.5, "s", b"b", True, None, (1,), [1], {1: 2}, {1}, 1j]
@@ -846,12 +850,20 @@ def run(ctx: Ctx) -> None:
         site_function_stream(ctx, st)
         os_semantics_stream(ctx, st, scratch)
         nproj = 12 if ctx.quick else 200
-        # always there: a single root module named like a summary page - its page replaces classIndex.html, which then
-        # becomes the root symlink; a re-run writes the summary page THROUGH that link (run_writes_through)
+        # always there: a single root module named like a summary page (before /repo 5201211 classIndex.html became the
+        # root symlink and a re-run wrote the summary page THROUGH that link; now the alias is skipped)
         projects: List[Dict[str, Any]] = [{
             "id": "fixed-classIndex", "kind": "generated", "explicit": None, "args": ["--docformat=plaintext"],
             "roots": ["classIndex.py"], "docformat": "plaintext",
-            "files": {"classIndex.py": '"""A module named like a summary page."""\nclass K:\n    """k"""\n'}}]
+            "files": {"classIndex.py": '"""A module named like a summary page."""\nclass K:\n    """k"""\n'}},
+            # a single root module called `index`: <root>.html IS index.html, no alias (since /repo 5201211 and its predecessor)
+            {"id": "fixed-index", "kind": "generated", "explicit": None, "args": ["--docformat=plaintext"],
+             "roots": ["index.py"], "docformat": "plaintext",
+             "files": {"index.py": '"""A module called index."""\ndef f():\n    """f"""\n'}},
+            # a single root that --privacy hides: index.html is the IndexPage (since /repo a09aa28)
+            {"id": "fixed-hidden-root", "kind": "generated", "explicit": None, "args": ["--docformat=plaintext", "--privacy=HIDDEN:hid"],
+             "roots": ["hid.py"], "docformat": "plaintext",
+             "files": {"hid.py": '"""A hidden root."""\nx = 1\n'}}]
         i = 0
         while len(projects) < nproj:
             p = gen_project(ctx.rng, i)
